@@ -1,4 +1,5 @@
 import Yuiv.Model.C08
+import Yuiv.Model.C08Step
 import Yuiv.Drv.Loop
 /-
 Driver for C08.
@@ -13,6 +14,9 @@ Driver for C08.
       homology: Z: per degree `rank[:t1:t2…]`;  Q, F<p>: Betti numbers;  ZH: `-`
 
   hom <ring> <k> n_0..n_k <entries d_1..d_k>      reply: homology string as above
+
+  schur <ring> <U|L> m n r <m*n entries>          (code model of `Schur::from_partial_triangular`)
+    reply: `S | F_src | B_src | F_tgt | B_tgt`, each `rows cols entries…`, or `panic`
 -/
 namespace Yuiv.Drv.C08
 open Yuiv Yuiv.C08 Yuiv.Drv
@@ -144,10 +148,33 @@ def handleHom (ring : String) (toks : Array String) : String :=
     | some p => go (α := Int) (·.toInt?) (homP p)
     | none => "bad-request"
 
+def handleSchur (ring ul : String) (toks : Array String) : String :=
+  let go {α} [Inhabited α] (R : Ops α) (parse : String → Option α) : String :=
+    match (do
+      let m ← (toks.getD 0 "").toNat?
+      let n ← (toks.getD 1 "").toNat?
+      let r ← (toks.getD 2 "").toNat?
+      if m > 4096 || n > 4096 then none
+      let (A, p) ← takeMat parse toks 3 m n
+      if p != toks.size then none
+      return (m, n, r, A) : Option (Nat × Nat × Nat × Mat α)) with
+    | none => "bad-request"
+    | some (m, n, r, A) =>
+      let M : DMat α := dmk m n fun i j => A.a.getD (i * n + j) R.zero
+      showSchur R m n r (schurModel R (ul == "U") M m n r)
+  if ul != "U" && ul != "L" then "bad-request"
+  else if ring == "Z" then go opsZ (·.toInt?)
+  else if ring == "Q" then go opsQ parseRat?
+  else if ring == "ZH" then go opsZH parsePoly?
+  else match primeTag? ring with
+    | some p => go (opsP p) (·.toInt?)
+    | none => "bad-request"
+
 def handle (t : List String) : String :=
   match t with
   | "red" :: ring :: rest => handleRed ring rest.toArray
   | "hom" :: ring :: rest => handleHom ring rest.toArray
+  | "schur" :: ring :: ul :: rest => handleSchur ring ul rest.toArray
   | _ => "bad-request"
 
 end Yuiv.Drv.C08
